@@ -755,6 +755,8 @@ func (tc *typechecker) typeof(expr ast.Expression, typeExpected bool) *typeInfo 
 		}
 		// Method value.
 		if mv, ok := tc.checkMethodValue(t, expr); ok {
+			// The receiver can be a constant.
+			t.setValue(nil)
 			return mv
 		}
 		// Key selector.
